@@ -6,6 +6,7 @@
 mod contracts;
 mod examples;
 mod fung;
+mod nft;
 mod obs;
 mod props;
 mod report;
